@@ -17,8 +17,8 @@
           on which position is used where).  Since the fixes "projections and write results hand
           out copies, and leave the projection argument alone" (5ac4c3c), "$literal and array
           constants of a pipeline are handed out as copies" (aab0261), "a cursor hands out a
-          copy of its cached result each time" (b973460) and "a cursor copies the projection it is
-          given" (b829c96) EVERY final position carries a deep copy (`final_positions_copy`): the
+          copy of its cached result each time" (b973460), "a cursor copies the projection it is
+          given" (b829c96) and "a cursor copies the sort it is given" (0c1b9e0) EVERY final position carries a deep copy (`final_positions_copy`): the
           theorems are stated for ALL operations and both kinds of client, cursor re-reads
           (rewind, indexing, re-iteration, clone, `cursor.distinct`) and the query a cursor keeps
           included, and no exclusion class is left.  The positions where the code does not copy (`aliasing_positions`) are
@@ -420,10 +420,43 @@ example : wfRun copyDiscipline sampleWorld
     (sampleFind ++ [.fill [.piece .cloneProj (.cache 1 []), .piece .cursorSpec (.held 1 [])]]) = true := by
   decide +kernel
 
+/-- Likewise for the sort list: `find({}, sort=[('a', 1)])` — the cursor keeps a deep copy of the
+    list (`Cursor._sort`; the pairs are immutable, the list is the object that can be edited). -/
+def sampleFindSorted : List Step :=
+  [ .pass [.node 20 false [("", .atom (.str "a, 1"))]],
+    .fill [.piece .cursorSort (.held 1 [])] ]
+
+/-- The table in which the cursor keeps the caller's sort list itself (the behaviour before the
+    fix "a cursor copies the sort it is given", 0c1b9e0; `cursor-sort-by-reference`): the caller
+    editing its list after `find` returned edits the order the cursor will give. -/
+def keptSortTable : Table where
+  disc
+    | .cursorSort => [.noCopy]
+    | p => copyDiscipline.disc p
+
+theorem sort_copy_needed :
+    ¬ Sep (run keptSortTable sampleWorld sampleFindSorted) ∧
+    ((run keptSortTable sampleWorld sampleFindSorted).mutate 20
+        (scribbleFn [] [("", .str "b, -1")])).cache
+      ≠ (run keptSortTable sampleWorld sampleFindSorted).cache ∧
+    Sep (run copyDiscipline sampleWorld sampleFindSorted) ∧
+    ((run copyDiscipline sampleWorld sampleFindSorted).mutate 20
+        (scribbleFn [] [("", .str "b, -1")])).cache
+      = (run copyDiscipline sampleWorld sampleFindSorted).cache := by
+  refine ⟨by decide +kernel, ?_, by decide +kernel, ?_⟩
+  · intro h
+    have := congrArg (fun st => st.map HVal.size) h
+    revert this
+    decide +kernel
+  · exact mutate_held_keeps_cache _ 20 _ (by decide +kernel) (by decide +kernel)
+
+example : wfRun copyDiscipline sampleWorld
+    (sampleFindSorted ++ [.fill [.piece .cloneSort (.cache 1 [])]]) = true := by decide +kernel
+
 /-! ### arguments -/
 
 /-- **Calls do not modify their arguments**: writes, reads and the making of a cursor (which keeps
-    copies of the filter and the projection it is given) leave every object the caller holds
+    copies of the filter, the sort list and the projection it is given) leave every object the caller holds
     exactly as it was (passing further arguments only adds to what is held). -/
 theorem args_unchanged (T : Table) (w : World) (s : Step)
     (hs : match s with | .calleeWrite .. => False | .scribble .. => False | _ => True) :
@@ -433,7 +466,8 @@ theorem args_unchanged (T : Table) (w : World) (s : Step)
 example : (match sampleUpdateMany with | .calleeWrite .. => False | .scribble .. => False | _ => True) :=
   trivial
 
-example : (match Step.fill [.piece .cursorSpec (.held 0 []), .piece .cursorProj (.held 0 [0])] with
+example : (match Step.fill [.piece .cursorSpec (.held 0 []), .piece .cursorProj (.held 0 [0]),
+      .piece .cursorSort (.held 0 [0, 0])] with
     | .calleeWrite .. => False | .scribble .. => False | _ => True) := trivial
 
 /-- The one kind of step by which a call edits an argument touches only the objects that contain
